@@ -147,8 +147,8 @@ theorem childTriples_origin {os : List Nat} {segs : List Int} {cnt : Nat} {t : N
 theorem cell_to_children_eq (index : Nat) (cr : Option Int) :
     Src.serialization.cell_to_children (index : Int) cr = (cellToChildren index cr).map (List.map Int.ofNat) := by
   unfold Src.serialization.cell_to_children cellToChildren
-  have h1 : Src.serialization.FIRST_HILBERT_RESOLUTION = FHR := by decide
-  have h3 : Src.serialization.MAX_RESOLUTION = MAXR := by decide
+  have h1 : FHR = 2 := by decide
+  have h3 : MAXR = 30 := by decide
   rw [deserialize_eq, h1, h3]
   cases hd : deserialize index with
   | error e => rfl
@@ -160,28 +160,28 @@ theorem cell_to_children_eq (index : Nat) (cr : Option Int) :
     dsimp only [cellOf]
     have key : ∀ new : Int,
         (if new < c.res then (Except.error Err.value : PyM (List Int))
-         else if new > MAXR then Except.error Err.value
+         else if new > (30 : Int) then Except.error Err.value
          else if new = c.res then pure [(index : Int)]
          else
           (if c.res = -1 then (pure Py.origins : PyM (List Int)) else pure [(c.origin : Int)]) >>= fun new_origins =>
           (if (c.res = -1 ∧ new > 0) ∨ c.res = 0 then (pure (Py.range 5) : PyM (List Int)) else pure [c.segment]) >>= fun new_segments =>
-          Py.pow 4 (max 0 (new - max c.res (FHR - 1))) >>= fun t2_ =>
-          Py.shl c.S (2 * max 0 (new - max c.res (FHR - 1))) >>= fun t3_ =>
+          Py.pow 4 (max 0 (new - max c.res ((2 : Int) - 1))) >>= fun t2_ =>
+          Py.shl c.S (2 * max 0 (new - max c.res ((2 : Int) - 1))) >>= fun t3_ =>
           Src.serialization.cell_to_children_for1 new_origins new new_segments t2_ t3_ [] >>= fun children => pure children)
         = Except.map (List.map Int.ofNat)
           (if new < c.res then Except.error Err.value
-           else if new > MAXR then Except.error Err.value
+           else if new > (30 : Int) then Except.error Err.value
            else if new = c.res then Except.ok [index]
            else
              (childTriples (if c.res = -1 then Tables.ORIGIN_IDS else [c.origin])
                 (if (c.res = -1 ∧ new > 0) ∨ c.res = 0 then [0, 1, 2, 3, 4] else [c.segment])
-                (4 ^ (max 0 (new - max c.res (FHR - 1))).toNat)).mapM fun (o, s, i) =>
-               serialize { origin := o, segment := s, S := c.S * 2 ^ (2 * max 0 (new - max c.res (FHR - 1))).toNat + (i : Int), res := new }) := by
+                (4 ^ (max 0 (new - max c.res ((2 : Int) - 1))).toNat)).mapM fun (o, s, i) =>
+               serialize { origin := o, segment := s, S := c.S * 2 ^ (2 * max 0 (new - max c.res ((2 : Int) - 1))).toNat + (i : Int), res := new }) := by
       intro new
       by_cases c1 : new < c.res
       · rw [if_pos c1, if_pos c1]; rfl
       rw [if_neg c1, if_neg c1]
-      by_cases c2 : new > MAXR
+      by_cases c2 : new > (30 : Int)
       · rw [if_pos c2, if_pos c2]; rfl
       rw [if_neg c2, if_neg c2]
       by_cases c3 : new = c.res
@@ -194,17 +194,17 @@ theorem cell_to_children_eq (index : Nat) (cr : Option Int) :
           = pure (if (c.res = -1 ∧ new > 0) ∨ c.res = 0 then [0, 1, 2, 3, 4] else [c.segment]) := by
         split <;> rfl
       rw [e1, e2, pure_ok, pure_ok, bind_ok, bind_ok]
-      have hd0 : 0 ≤ max 0 (new - max c.res (FHR - 1)) := by omega
-      have e3 : Py.pow 4 (max 0 (new - max c.res (FHR - 1))) = .ok (((4 ^ (max 0 (new - max c.res (FHR - 1))).toNat : Nat)) : Int) := by
+      have hd0 : 0 ≤ max 0 (new - max c.res ((2 : Int) - 1)) := by omega
+      have e3 : Py.pow 4 (max 0 (new - max c.res ((2 : Int) - 1))) = .ok (((4 ^ (max 0 (new - max c.res ((2 : Int) - 1))).toNat : Nat)) : Int) := by
         unfold Py.pow; rw [if_neg (by omega)]; push_cast; try rfl
-      have e4 : Py.shl c.S (2 * max 0 (new - max c.res (FHR - 1)))
-          = .ok (c.S * 2 ^ (2 * max 0 (new - max c.res (FHR - 1))).toNat) := by
+      have e4 : Py.shl c.S (2 * max 0 (new - max c.res ((2 : Int) - 1)))
+          = .ok (c.S * 2 ^ (2 * max 0 (new - max c.res ((2 : Int) - 1))).toNat) := by
         unfold Py.shl; rw [if_neg (by omega), Int.shiftLeft_eq]
       rw [e3, e4, bind_ok, bind_ok, for1_eq, triples_cast, List.mapM_map]
       generalize hos : (if c.res = -1 then Tables.ORIGIN_IDS else [c.origin]) = os
       generalize (if (c.res = -1 ∧ new > 0) ∨ c.res = 0 then ([0, 1, 2, 3, 4] : List Int) else [c.segment]) = segs
-      generalize (4 ^ (max 0 (new - max c.res (FHR - 1))).toNat : Nat) = cnt
-      generalize c.S * 2 ^ (2 * max 0 (new - max c.res (FHR - 1))).toNat = sS
+      generalize (4 ^ (max 0 (new - max c.res ((2 : Int) - 1))).toNat : Nat) = cnt
+      generalize c.S * 2 ^ (2 * max 0 (new - max c.res ((2 : Int) - 1))).toNat = sS
       have hall : ∀ o ∈ os, o < 12 := by
         intro o hmem
         rw [← hos] at hmem
